@@ -98,6 +98,9 @@ func VerifC04_limit_run() {
 	M := vParam("M", 3)
 	d := e.d
 	vSleepBudget(M + 2)
+	// the batch / pause oracles below read the pacing off time.Sleep (the only primitive whose requested duration is an
+	// upper-bound-free fact on the symbolic clock); code that paces with a ticker is outside what this harness can judge
+	vNoTickers("the limit discipline creates a ticker: the oracles of VerifC04_limit_run assume pacing by time.Sleep (adversarial ticks would make a correct ticker-paced implementation fail); not checked")
 	vExpect("HORIZON", "fail:C12: the discipline keeps pausing without forwarding the elements it was given / without closing its output")
 	vExpect("BUDGET", "fail:C12: the discipline spins without forwarding the elements it was given")
 	vExpect("BLOCKED", "fail:C12: the discipline blocks for ever although its input was closed")
@@ -114,7 +117,39 @@ func VerifC04_limit_run() {
 		}
 	}
 	vAssert(vIsClosed(d.output), "C12: the output is closed after the input was closed and everything was forwarded")
-	// C04: batch k starts no earlier than k Intervals after creation, a batch has at most Quantity sends
+	// C04, stated on what a consumer can observe only (t0, the instants at which the elements left, Quantity, Interval):
+	// (a) at most Quantity*(floor((t-t0)/Interval)+1) elements have left by time t. For the (i+1)-th element that is
+	//     times[i]-t0 >= floor(i/Quantity)*Interval; floor(i/Quantity) = m is split into cases so that the products stay linear.
+	for i := range e.out {
+		for m := 1; m <= i; m++ {
+			if vAnd(vLin(uint64(m), Q, 0, uint64(i), 1, 1), vLin(uint64(i), 1, 0, uint64(m)+1, Q, 0)) { // m*Q <= i < (m+1)*Q
+				need := int64(0)
+				for g := 0; g < m; g++ {
+					need += I
+				}
+				vReach("cumulative-checked")
+				vAssert(e.times[i]-e.t0 >= need, "C04: at most Quantity*(floor(t/Interval)+1) elements have left by time t after creation")
+			}
+		}
+	}
+	// (b) a window of length W holds at most Quantity*(floor(W/Interval)+2) elements: elements i<j with
+	//     floor((j-i)/Quantity) = m >= 2 are at least (m-1) Intervals apart
+	for i := range e.out {
+		for j := i + 1; j < len(e.out); j++ {
+			for m := 2; m <= j-i; m++ {
+				if vAnd(vLin(uint64(m), Q, 0, uint64(j-i), 1, 1), vLin(uint64(j-i), 1, 0, uint64(m)+1, Q, 0)) {
+					need := int64(0)
+					for g := 0; g < m-1; g++ {
+						need += I
+					}
+					vReach("window-checked")
+					vAssert(e.times[j]-e.times[i] >= need, "C04: a window of length W holds at most Quantity*(floor(W/Interval)+2) elements (burst <= 2*Quantity)")
+				}
+			}
+		}
+	}
+	// the same two bounds in the sharper form the pacing mechanism gives (batch = number of pauses requested so far):
+	// batch k starts no earlier than k Intervals after creation, holds at most Quantity elements, and follows a full batch
 	for i := range e.out {
 		k := e.batch[i]
 		lower := e.t0
